@@ -1,4 +1,4 @@
 From Coq Require Import Extraction ExtrOcamlBasic.
 From PV Require Import Lib.ExtractBase Model.Registry.
 Extraction Language OCaml.
-Extraction "extracted/C18_model.ml" xb_types run_case run_case_from expected_arg spec_b configured_b errors_b fresh_b shape_wf.
+Extraction "extracted/C18_model.ml" xb_types run_case run_case_from expected_arg spec_b configured_b errors_b fresh_b shape_wf run_nest nest_b reround_ok.
